@@ -978,6 +978,19 @@ EXTRA_CELLS = [
     ('DROP_ALL ; UNIT ; FAILWITH', True), ('PUSH (list int) { 1 ; 2 } ; ITER { DROP ; UNIT ; FAILWITH }', True),
     ('PUSH (list int) { 1 ; 2 } ; MAP { PUSH int 1 ; ADD } ; DROP', False),
     ('LAMBDA int int { UNIT ; FAILWITH } ; PUSH int 1 ; EXEC', True),
+    # failures whose wrapped exception carries non-string args (KeyError(b'..') from a key in bytes form with an unknown
+    # curve tag): MichelsonRuntimeError.format_stdout cannot join them and raises TypeError, so execute() itself raises;
+    # the harness catches that, goes on with the session like a front end would, and oracle (B) demands that the cell left
+    # nothing behind.  Each one has side effects (stack, tmp ids, alloc counter, PATCHed fields, declarations) before it fails.
+    ('EMPTY_BIG_MAP nat nat ; PUSH key 0x09adbeef', True),
+    ('PUSH int 7 ; PATCH AMOUNT 9 ; PUSH key 0x', True),
+    ('EMPTY_BIG_MAP string nat ; BIG_MAP_DIFF ; DROP ; PUSH key 0x04ff', True),
+    ('storage nat ; parameter nat ; DROP_ALL ; PUSH key 0xff00', True),
+    ('EMPTY_BIG_MAP nat nat ; PUSH (or nat nat) (Left 1) ; IF_LEFT { PUSH key 0xff } { }', True),
+    ('PATCH NOW 3 ; PUSH nat 1 ; PUSH (map nat key) { } ; SWAP ; GET ; IF_NONE { PUSH key 0x0a0b } { DROP }', True),
+    ('UNIT ; DIP { EMPTY_BIG_MAP nat nat ; PUSH key 0x0900 }', True),
+    ('EMPTY_BIG_MAP nat nat ; PUSH bytes 0x0a ; PUSH signature "edsigtXomBKi5CTRf5cjATJWSyaRvhfYNHqSUGrn4SdbYRcGwQrUGjzEfQDTuqHhuA8b2d8NarZjz8TRf65WkpQmo423BtomS8Q" ; PUSH key 0x0500 ; CHECK_SIGNATURE', True),
+    ('PUSH (list nat) { 1 ; 2 } ; ITER { DROP ; EMPTY_BIG_MAP nat nat ; DROP } ; LAMBDA unit key { DROP ; PUSH key 0x77 } ; UNIT ; EXEC', True),
 ]
 
 
@@ -994,7 +1007,7 @@ INDIRECT_LAMBDAS = [
     ('LAMBDA unit unit { EMPTY_BIG_MAP nat nat ; BIG_MAP_DIFF ; DROP }', 'UNIT', False),
     ('LAMBDA unit unit { PUSH bool True ; IF { EMPTY_BIG_MAP nat nat ; DROP } { } }', 'UNIT', False),
 ]
-INDIRECT_FAILS = [' ; UNIT ; FAILWITH', ' ; PUSH int 1 ; CAR', ' ; DROP ; DROP ; DROP', ' ; PUSH nat 300 ; PUSH nat 1 ; LSL',
+INDIRECT_FAILS = [' ; PUSH key 0x09adbeef', ' ; PUSH key 0x', ' ; UNIT ; FAILWITH', ' ; PUSH int 1 ; CAR', ' ; DROP ; DROP ; DROP', ' ; PUSH nat 300 ; PUSH nat 1 ; LSL',
                   ' ; PUSH string "a" ; PUSH int 1 ; ADD']
 
 
@@ -1021,7 +1034,7 @@ def indirect_session(rng):
 
 def extend_session(rng, cells):
     out = list(cells)
-    for _ in range(rng.randrange(1, 4)):
+    for _ in range(rng.randrange(1, 5)):
         text, _fails = rng.choice(EXTRA_CELLS)
         out.insert(rng.randrange(0, len(out) + 1), {'text': text})
     return out
